@@ -132,6 +132,10 @@ class SIntegrator(Integrator):
     def mcstep(self, t, copy=True):
         raise NotImplementedError
 
+    def arguments(self, args):
+        self.rhs.arguments(args)
+        self.reset()
+
     def reset(self, hard=False):
         if self._is_set:
             state = self.get_state()
